@@ -2,10 +2,11 @@
 imported PyTeal from the repository under test and done nothing else.  For every job line
 on stdin it forks; the child executes the job against the real library and reports through a
 pipe; the zygote itself never touches PyTeal state, so every job starts from exactly
-"just imported pyteal".
+"just imported pyteal".  Several children may be in flight at once (they share the zygote's
+pages copy-on-write, which is what makes parallelism pay off on this VM).
 
 Usage:  python zygote.py <repo_root> <verif_root>
-Protocol: one JSON object per line on stdin / stdout.
+Protocol: one JSON object per line on stdin ({"id":..,"kind":..}) / stdout ({"id":..,"ok":..}).
 """
 
 import json
@@ -14,6 +15,48 @@ import select
 import signal
 import sys
 import time  # used only for the wall-clock watchdog of a child, never inside a run
+
+
+def child_main(job, w, world):
+    code = 0
+    try:
+        import faulthandler
+
+        timeout = job.get("timeout", 60)
+        faulthandler.enable()
+        faulthandler.dump_traceback_later(max(timeout - 2, 1), exit=True)
+        try:
+            import resource as _rs
+
+            _a = _rs.getrusage(_rs.RUSAGE_SELF)
+            _t = time.monotonic()
+            if job["kind"] in ("run", "replay"):
+                res = world.run_history(job)
+            elif job["kind"] == "ref":
+                res = world.run_reference(job)
+            elif job["kind"] == "ping":
+                res = {"pong": True}
+            else:
+                res = {"harness_error": "unknown job kind"}
+        except BaseException as e:  # noqa: BLE001
+            import traceback
+
+            res = {"harness_error": f"{type(e).__name__}: {e}", "tb": traceback.format_exc()[-3000:]}
+        if job.get("timing") and isinstance(res, dict):
+            _b = _rs.getrusage(_rs.RUSAGE_SELF)
+            res["_timing"] = {
+                "wall": time.monotonic() - _t,
+                "user": _b.ru_utime - _a.ru_utime,
+                "sys": _b.ru_stime - _a.ru_stime,
+                "minflt": _b.ru_minflt - _a.ru_minflt,
+            }
+        data = json.dumps(res).encode()
+        with os.fdopen(w, "wb") as f:
+            f.write(data)
+    except BaseException:  # noqa: BLE001
+        code = 3
+    finally:
+        os._exit(code)
 
 
 def main():
@@ -33,11 +76,6 @@ def main():
         os.path.join(repo_root, "pyteal") + os.sep,
         os.path.join(repo_root, "feature_gates") + os.sep,
     )
-    # resolve symlinks the way code objects see them
-    import pyteal.ast.expr as _e
-
-    if not _e.__file__.startswith(world.REPO_PREFIXES):
-        world.REPO_PREFIXES = world.REPO_PREFIXES + (os.path.dirname(os.path.dirname(_e.__file__)) + os.sep,)
 
     out = sys.stdout
     print(
@@ -52,86 +90,88 @@ def main():
         ),
         flush=True,
     )
+    if os.environ.get("SIM_STUB_CHECKCACHE", "1") == "1":
+        # linecache.checkcache() stat()s every frame's file for every Expr constructed
+        # (traceback.format_stack in Expr.__init__); it only revalidates cached source text,
+        # which cannot change during a run and never reaches TEAL.  Stubbed for throughput.
+        import linecache
+
+        linecache.checkcache = lambda filename=None: None
+
     import gc
 
     gc.collect()
     gc.freeze()
 
-    for line in sys.stdin:
-        line = line.strip()
-        if not line:
-            continue
-        job = json.loads(line)
-        if job.get("kind") == "quit":
-            break
-        timeout = job.get("timeout", 60)
-        r, w = os.pipe()
-        pid = os.fork()
-        if pid == 0:
-            # ---- child: run the job against the real library -----------------------------
-            code = 0
+    stdin_fd = sys.stdin.fileno()
+    inbuf = b""
+    live = {}  # read fd -> [job id, pid, chunks, deadline]
+    eof = False
+    while not eof or live:
+        fds = list(live.keys())
+        if not eof:
+            fds.append(stdin_fd)
+        now = time.monotonic()
+        tmo = None
+        if live:
+            tmo = max(0.0, min(v[3] for v in live.values()) - now)
+        rl, _, _ = select.select(fds, [], [], tmo)
+        now = time.monotonic()
+        for fd in rl:
+            if fd == stdin_fd:
+                b = os.read(stdin_fd, 1 << 20)
+                if not b:
+                    eof = True
+                    continue
+                inbuf += b
+                while b"\n" in inbuf:
+                    line, inbuf = inbuf.split(b"\n", 1)
+                    line = line.strip()
+                    if not line:
+                        continue
+                    job = json.loads(line)
+                    if job.get("kind") == "quit":
+                        eof = True
+                        break
+                    r, w = os.pipe()
+                    pid = os.fork()
+                    if pid == 0:
+                        os.close(r)
+                        for ofd in live:
+                            try:
+                                os.close(ofd)
+                            except OSError:
+                                pass
+                        child_main(job, w, world)
+                    os.close(w)
+                    live[r] = [job.get("id"), pid, [], time.monotonic() + job.get("timeout", 60)]
+            else:
+                ent = live[fd]
+                b = os.read(fd, 1 << 16)
+                if b:
+                    ent[2].append(b)
+                    continue
+                os.close(fd)
+                del live[fd]
+                _, status = os.waitpid(ent[1], 0)
+                data = b"".join(ent[2])
+                if not data:
+                    resp = {"id": ent[0], "ok": False, "error": f"child died status={status}"}
+                    out.write(json.dumps(resp) + "\n")
+                else:
+                    # pass the child's JSON through without re-parsing it
+                    out.write('{"id": %s, "ok": true, "result": %s}\n' % (json.dumps(ent[0]), data.decode()))
+                out.flush()
+        for fd in [f for f, v in live.items() if v[3] <= now]:
+            ent = live.pop(fd)
             try:
-                os.close(r)
-                import faulthandler
-
-                faulthandler.enable()
-                faulthandler.dump_traceback_later(max(timeout - 2, 1), exit=True)
-                try:
-                    if job["kind"] in ("run", "replay"):
-                        res = world.run_history(job)
-                    elif job["kind"] == "ref":
-                        res = world.run_reference(job)
-                    elif job["kind"] == "ping":
-                        res = {"pong": True}
-                    else:
-                        res = {"harness_error": "unknown job kind"}
-                except BaseException as e:  # noqa: BLE001
-                    import traceback
-
-                    res = {"harness_error": f"{type(e).__name__}: {e}", "tb": traceback.format_exc()[-3000:]}
-                data = json.dumps(res).encode()
-                with os.fdopen(w, "wb") as f:
-                    f.write(data)
-            except BaseException:  # noqa: BLE001
-                code = 3
-            finally:
-                os._exit(code)
-        # ---- zygote: wait for the child with a wall-clock watchdog -----------------------
-        os.close(w)
-        chunks = []
-        deadline = time.monotonic() + timeout
-        timed_out = False
-        while True:
-            left = deadline - time.monotonic()
-            if left <= 0:
-                timed_out = True
-                break
-            rl, _, _ = select.select([r], [], [], left)
-            if not rl:
-                timed_out = True
-                break
-            b = os.read(r, 1 << 16)
-            if not b:
-                break
-            chunks.append(b)
-        os.close(r)
-        if timed_out:
-            try:
-                os.kill(pid, signal.SIGKILL)
+                os.kill(ent[1], signal.SIGKILL)
             except ProcessLookupError:
                 pass
-        _, status = os.waitpid(pid, 0)
-        if timed_out:
-            resp = {"ok": False, "error": "timeout"}
-        else:
-            data = b"".join(chunks)
-            if not data:
-                resp = {"ok": False, "error": f"child died status={status}"}
-            else:
-                resp = {"ok": True, "result": json.loads(data)}
-        out.write(json.dumps(resp))
-        out.write("\n")
-        out.flush()
+            os.close(fd)
+            os.waitpid(ent[1], 0)
+            out.write(json.dumps({"id": ent[0], "ok": False, "error": "timeout"}) + "\n")
+            out.flush()
     return 0
 
 
